@@ -121,6 +121,9 @@ func (p *peer) defaultReply(f wframe) []byte {
 	case tClose:
 		return fStatus(f.ID, p.closeStatus, fmt.Sprintf("closed %s", f.Handle))
 	case tRead:
+		if f.Off > 1<<40 {
+			return fStatus(f.ID, 4, "offset out of range") // like pread(2) with a negative offset: EINVAL
+		}
 		if code, ok := p.failOff["R:"+itoa(int(f.Off))]; ok {
 			return fStatus(f.ID, code, fmt.Sprintf("E@%d", f.Off))
 		}
@@ -137,6 +140,9 @@ func (p *peer) defaultReply(f wframe) []byte {
 		}
 		return fData(f.ID, d[f.Off:end])
 	case tWrite:
+		if f.Off > 1<<40 {
+			return fStatus(f.ID, 4, "offset out of range") // like pwrite(2) with a negative offset: EINVAL
+		}
 		if code, ok := p.failOff["W:"+itoa(int(f.Off))]; ok {
 			return fStatus(f.ID, code, fmt.Sprintf("E@%d", f.Off))
 		}
